@@ -194,6 +194,9 @@ def reeval_cases():
         out.append({"first": a, "second": b, "cmp1": f"{a} == site()", "cmp2": f"{b} == site()", "mut": mut})
         if a.startswith("["):
             out.append({"first": a, "second": b, "cmp1": "3 in site()", "cmp2": "3 in site()", "mut": mut})
+    # the KEYS of a dict display are part of the value too
+    for a, b in (("{'a': 1}", "{'b': 1}"), ("{'a': 1, 'z': 2}", "{'b': 1, 'z': 2}"), ("[{'a': [1]}]", "[{'b': [1]}]"), ("{(1, 0): 'v'}", "{(2, 0): 'v'}"), ("{'a': 1, 'b': 2}", "{'b': 2, 'a': 1}")):
+        out.append({"first": a, "second": b, "cmp1": f"{a} == site()", "cmp2": f"{b} == site()", "mut": f"G[0] = {b}"})
     return out
 
 
@@ -407,6 +410,9 @@ def run(ctx: Ctx):
         elif any(r[0] == "exc" for r in R):
             ctx.report(f"unchanged argument rejected: {R}", {"kind": "reeval", "case": c})
     ctx.coverage["oracle"]["reeval_cases"] = len(rc)
+    # nested arguments with managed holes, Is() holes and dict keys, evaluated twice: usage error or refreshed value vs Model/ReEval.v
+    from .. import reevalcorr
+    reevalcorr.check_part(ctx, 300 if not ctx.thorough else 4000, "C14")
     tw = run_twins(("create",))
     ctx.count(("twins",), True)
     if tw["session_exc"] or "snapshot(1)" not in tw["a"] or "snapshot(2)" not in tw["a"] or "snapshot(20)" not in tw["b"] or "snapshot(21)" not in tw["b"]:
@@ -452,6 +458,9 @@ def replay(ctx: Ctx, data):
         o = run_dynamic(case["body"])
         print(o)
         return not o["session_exc"] and bool(o["R"]) and all(r is True for r in o["R"])
+    if case.get("kind") == "reeval-nested":
+        from .. import reevalcorr
+        return reevalcorr.replay_case(case["case"])
     if case.get("kind") == "multi":
         fl = tuple(case["flags"])
         o = run_multi(fl)
